@@ -422,7 +422,7 @@ def main():
     tier = common.get_tier()
     mods()
     cmh.cm()
-    tmo = 240000 if tier == "quick" else 900000
+    tmo = 600000 if tier == "quick" else 1200000
     maxL = 8 if tier == "quick" else 12
     obs = []
     for kind in ("linear", "log16", "log8", "hh", "hll"):
